@@ -115,13 +115,16 @@ Dev_RefitKeepsSorted(d) ==
     /\ UNCHANGED snaps
 
 (* model.transform(d): needs the same number of items; only writes the
-   unseen-sample bookkeeping (coords_from_transform, coords_out) *)
-Transform(d) ==
+   unseen-sample bookkeeping (coords_from_transform, coords_out).  `wrap`: a
+   one-item argument presented as a one-element list - the same call, and in
+   particular it must not change how later answers are packaged *)
+Transform(d, wrap) ==
     /\ m.fitted /\ Cap.hasTransform /\ m.namesOK
     /\ NItems[d] = m.ndata
+    /\ wrap => NItems[d] = 1
     /\ m' = [m EXCEPT !.tf = d]
     /\ last' = [kind |-> "transform", arg |-> d, used |-> UsedData(m), labelsFrom |-> d,
-                order |-> m.order]
+                order |-> m.order, wrapped |-> wrap]
     /\ UNCHANGED <<r, snaps>>
 
 TransformRefused(d) ==
@@ -137,7 +140,7 @@ Dev_TransformLabelsFromFit(d) ==
     /\ m.fitted /\ Cap.hasTransform /\ NItems[d] = m.ndata
     /\ m' = [m EXCEPT !.tf = d]
     /\ last' = [kind |-> "transform", arg |-> d, used |-> UsedData(m), labelsFrom |-> m.data,
-                order |-> m.order]
+                order |-> m.order, wrapped |-> FALSE]
     /\ UNCHANGED <<r, snaps>>
 
 (* model.inverse_transform(scores) *)
@@ -272,7 +275,7 @@ Next ==
     \/ \E d \in Datasets : Fit(d)
     \/ \E d \in Datasets : Dev_FitAppends(d)
     \/ \E d \in Datasets : Dev_RefitKeepsSorted(d)
-    \/ \E d \in Datasets : Transform(d)
+    \/ \E d \in Datasets, wrap \in BOOLEAN : Transform(d, wrap)
     \/ \E d \in Datasets : TransformRefused(d)
     \/ \E d \in Datasets : Dev_TransformLabelsFromFit(d)
     \/ Inverse
